@@ -45,7 +45,7 @@ class Lexer:
             parts.append(param)
         self.regexpString = b"|".join(parts)
         self.regexp = re.compile(self.regexpString, re.MULTILINE)
-        self.wsregexp = re.compile(rb"\s+", re.M)
+        self.wsregexp = re.compile(rb"[ \t\r\n]+")
 
     def curlineno(self) -> int:
         """Return the current line number"""
